@@ -10,6 +10,7 @@ CONSTANTS
   FnFilter = "all"
   Shapes = {"plain", "star"}
   MaxSess = 3
+  FixProtoCache = FALSE
   Bug = "none"
 INVARIANT InvDiagnosis
 INVARIANT InvResult
